@@ -27,7 +27,7 @@ ASSUMPTIONS = [
     'hierarchies CPython rejects and root modules named like summary pages are outside the alphabet',
 ]
 FLOOR = {'quick': 300, 'thorough': 1500}
-SPACE = {'quick': 'histories <= 3 over 32 events x 2 schedules', 'thorough': 'histories <= 4 over 32 events x 2 schedules'}
+SPACE = {'quick': 'histories <= 3 over 35 events x 2 schedules', 'thorough': 'histories <= 4 over 35 events x 2 schedules'}
 
 EVENTS: Dict[str, List[Tuple[str, str]]] = {
     'defC':   [('a', 'class X:\n    def m(self): pass\n')],
@@ -67,6 +67,10 @@ EVENTS: Dict[str, List[Tuple[str, str]]] = {
                        '@implementer(IC1, IC2)\nclass W2: pass\nclass IC3(IC2):\n    def im3(): pass\n@implementer(IC3)\nclass W3(W2): pass\n')],
     'zopedecl': [('a', 'from zope.interface import Interface, classImplements, implementer, moduleProvides, implementer_only\nclass IY(Interface): pass\nclass IZ(IY): pass\nmoduleProvides(IY)\n'
                        'class V1: pass\nclassImplements(V1, IY, IZ)\n@implementer(IZ)\nclass V2(V1): pass\n@implementer_only(IY)\nclass V3(V2): pass\n@implementer(X)\nclass V4: pass\n')],
+    # a module-level function wearing a method decorator; a re-export that lands ON a local definition of the importing module (which may itself be moved later)
+    'mod-decorated-fn': [('a', '@staticmethod\ndef smf(): pass\n@classmethod\ndef cmf(cls): pass\nclass Hd:\n    @staticmethod\n    def sm(): pass\n')],
+    'move-onto-local': [('p', 'class X:\n    def inp(self): pass\n'), ('a', 'from p import X\n__all__ = ["X"]\n')],
+    'rename-module': [('p', 'from . import a as amod\n__all__ = ["amod"]\n')],
     'zopeimp': [('b', 'from zope.interface import implementer\nfrom .a import IY\nfrom p import IY as IYY\n@implementer(IY)\nclass U1: pass\n@implementer(IYY)\nclass U2: pass\n')],
 }
 NAMES = list(EVENTS)
